@@ -10,6 +10,7 @@ import (
 	"fmt"
 	"html"
 	"net/http"
+	"net/url"
 	"strings"
 	"testing"
 	"testing/synctest"
@@ -228,10 +229,16 @@ func c08Run(t *testing.T, p c08Plan) (res vfResult) {
 					method, path string
 				}
 				probes := []probe{{"GET", pfx + "/"}, {"GET", pfx + "/some/page?x=1"}, {"POST", pfx + "/"}, {"POST", pfx + hp}, {"GET", pfx + hp}, {"GET", pfx + hp + "/"},
-					{"GET", pfx + hp + "?q=1"}, {"HEAD", pfx + hp}}
+					{"GET", pfx + hp + "?q=1"}, {"HEAD", pfx + hp},
+					// the same path with one octet percent-encoded: still exactly the health-check path
+					{"GET", pfx + fmt.Sprintf("/%%%02x%s", hp[1], hp[2:])}}
 				for _, pr := range probes {
 					// "GET requests whose path is exactly its health-check path": the path as the client sent it
-					isHealth := pr.method == "GET" && strings.SplitN(pr.path, "?", 2)[0] == hp
+					sent := strings.SplitN(pr.path, "?", 2)[0]
+					if dec, err := url.PathUnescape(sent); err == nil {
+						sent = dec
+					}
+					isHealth := pr.method == "GET" && sent == hp
 					if s.State == "paused" && !isHealth {
 						continue // held; C07's business
 					}
